@@ -1,7 +1,7 @@
 (* Eval/MarksNI_Funcs.v — C06: the contract on functions and its proof for the harness table. *)
 From Coq Require Import QArith.
 From HclV Require Import Base.Prelude Cty.Values Cty.Convert Cty.Ops Eval.Impl Eval.Funcs
-     Eval.MarksNI Eval.MarksNI_Ops.
+     Eval.MarksNI Eval.MarksNI_Ops Eval.MarksNI_Index.
 Open Scope Z_scope.
 
 (* THE CONTRACT: a function, called through function.Function.Call (fn_call: null / unknown /
@@ -21,7 +21,11 @@ Definition params_pd (f : fn) : bool :=
   forallb (fun p => pd_ty (p_ty p)) (f_params f) &&
   match f_varparam f with Some p => pd_ty (p_ty p) | None => true end.
 
-Definition fn_ok (m : Z) (f : fn) : Prop := fn_ni m f /\ params_pd f = true.
+(* results of successful calls are well-formed (no mark directly under a mark) *)
+Definition fn_wf (f : fn) : Prop :=
+  forall args v, Forall wf args -> fn_call f args = CallOk v -> wf v.
+
+Definition fn_ok (m : Z) (f : fn) : Prop := fn_ni m f /\ params_pd f = true /\ fn_wf f.
 
 (* every function of every table of the context satisfies the contract *)
 Definition funcs_ni (m : Z) (c : ctx) : Prop :=
@@ -136,8 +140,120 @@ Lemma fn_fail_ni m : fn_ni m fn_fail.    Proof. apply all_unmarked_ni. reflexivi
 Lemma fn_isnull_ni m : fn_ni m fn_isnull. Proof. apply all_unmarked_ni. reflexivity. Qed.
 Lemma fn_pair_ni m : fn_ni m fn_pair.    Proof. apply all_unmarked_ni. reflexivity. Qed.
 
-Lemma fn_upper_ok m : fn_ok m fn_upper.  Proof. split; [apply fn_upper_ni|reflexivity]. Qed.
-Lemma fn_sum_ok m : fn_ok m fn_sum.      Proof. split; [apply fn_sum_ni|reflexivity]. Qed.
-Lemma fn_fail_ok m : fn_ok m fn_fail.    Proof. split; [apply fn_fail_ni|reflexivity]. Qed.
-Lemma fn_isnull_ok m : fn_ok m fn_isnull. Proof. split; [apply fn_isnull_ni|reflexivity]. Qed.
-Lemma fn_pair_ok m : fn_ok m fn_pair.    Proof. split; [apply fn_pair_ni|reflexivity]. Qed.
+(* ---- fn_first: the only harness function with AllowMarked parameters ------------------------ *)
+Lemma first_param i : exists p, param_for fn_first i = Some p /\
+  p_null p = true /\ p_unknown p = true /\ p_dyn p = true /\ p_marked p = true /\ p_ty p = TDyn.
+Proof. destruct i; eexists; repeat split. Qed.
+
+Lemma first_check : forall args i, call_check fn_first i args = (None, false).
+Proof.
+  induction args as [|a r IH]; intro i; cbn [call_check]; [reflexivity|].
+  destruct (first_param i) as (p & -> & Hn & _ & Hd & _ & Ht). rewrite Hn, Hd, Ht, andb_false_r. cbn [negb].
+  destruct (ty_eqb (type_of a) TDyn); [apply IH|]. cbn [conforms negb]. apply IH.
+Qed.
+
+Lemma first_prep : forall args i, prep_of fn_first i args = map (fun a => (a, [])) args.
+Proof.
+  induction args as [|a r IH]; intro i; unfold prep_of; cbn [length seq combine map fst snd]; [reflexivity|].
+  destruct (first_param i) as (p & -> & _ & _ & _ & Hm & _). rewrite Hm. f_equal. apply IH.
+Qed.
+
+Lemma first_unknown : forall args i,
+  existsb (fun ia : nat * val => match param_for fn_first (fst ia) with
+                      | Some p => negb (is_known (snd ia)) && negb (p_unknown p)
+                      | None => false end) (combine (seq i (length args)) args) = false.
+Proof.
+  induction args as [|a r IH]; intro i; cbn [length seq combine existsb fst snd]; [reflexivity|].
+  destruct (first_param i) as (p & -> & _ & Hu & _). rewrite Hu, andb_false_r. apply IH.
+Qed.
+
+Lemma unions_nil (l : list val) : marks_unions (map snd (map (fun a : val => (a, @nil Z)) l)) = [].
+Proof. induction l; cbn; auto. Qed.
+
+Lemma fn_call_first a r : fn_call fn_first (a :: r) = CallOk a.
+Proof.
+  unfold fn_call. rewrite first_check. fold (prep_of fn_first 0 (a :: r)). rewrite first_prep, first_unknown.
+  rewrite unions_nil. rewrite map_map. cbn [map fst f_rettype fn_first f_impl with_marks]. reflexivity.
+Qed.
+Lemma fn_call_first_nil : fn_call fn_first [] = CallErr.
+Proof. reflexivity. Qed.
+
+Lemma fn_first_ni m : fn_ni m fn_first.
+Proof.
+  intros args1 args2 v1 v2 H _ E1 E2. destruct H as [|a b r s Hab _]; [discriminate E1|].
+  rewrite fn_call_first in E1, E2. injection E1 as <-. injection E2 as <-. exact Hab.
+Qed.
+
+(* ---- well-formedness of function results ------------------------------------------------------ *)
+
+Lemma wf_unmark_deep v : wf (unmark_deep v) /\ is_mark (unmark_deep v) = false.
+Proof.
+  induction v using val_ind'; cbn [unmark_deep]; try (split; reflexivity); try exact IHv.
+  - split; [|reflexivity]. unfold wf. cbn [wfb]. induction H as [|x r [Hx _] _ IH]; cbn [map forallb]; [reflexivity|].
+    apply andb_true_iff; split; assumption.
+  - split; [|reflexivity]. unfold wf. cbn [wfb]. induction H as [|x r [Hx _] _ IH]; cbn [map forallb]; [reflexivity|].
+    apply andb_true_iff; split; assumption.
+  - split; [|reflexivity]. unfold wf. cbn [wfb]. induction H as [|x r [Hx _] _ IH]; cbn [map forallb snd]; [reflexivity|].
+    apply andb_true_iff; split; assumption.
+  - split; [|reflexivity]. unfold wf. cbn [wfb]. induction H as [|x r [Hx _] _ IH]; cbn [map forallb]; [reflexivity|].
+    apply andb_true_iff; split; assumption.
+  - split; [|reflexivity]. unfold wf. cbn [wfb]. induction H as [|x r [Hx _] _ IH]; cbn [map forallb snd]; [reflexivity|].
+    apply andb_true_iff; split; assumption.
+Qed.
+
+Lemma prep_wf f : forall args i, Forall wf args -> Forall wf (map fst (prep_of f i args)).
+Proof.
+  induction args as [|a r IH]; intros i W; unfold prep_of; cbn [length seq combine map]; [constructor|].
+  inversion W as [|? ? Wa Wr]; subst. constructor; [|apply IH; exact Wr]. cbn [fst snd].
+  destruct (param_for f i) as [p|]; [destruct (p_marked p)|]; cbn [fst]; try exact Wa. apply wf_unmark_deep.
+Qed.
+
+Lemma fn_wf_of_impl f :
+  (forall args rt v, Forall wf args -> f_impl f args rt = OOk v -> wf v) -> fn_wf f.
+Proof.
+  intros Himpl args v W E. unfold fn_call in E. destruct (call_check f 0 args) as [[r|] d] eqn:C.
+  - exfalso. destruct (fn_call_ok f args v) as (d' & C' & _); [unfold fn_call; rewrite C; exact E|congruence].
+  - fold (prep_of f 0 args) in E. destruct d; [injection E as <-; apply wf_with_marks; reflexivity|].
+    destruct (f_rettype f _); [|discriminate E].
+    destruct (existsb _ _); [injection E as <-; apply wf_with_marks; reflexivity|].
+    destruct (f_impl f _ _) eqn:I; try discriminate E. injection E as <-. apply wf_with_marks.
+    eapply Himpl; [|exact I]. apply prep_wf, W.
+Qed.
+
+Lemma fn_upper_wf : fn_wf fn_upper.
+Proof. apply fn_wf_of_impl. intros args rt v _ E. cbn in E. repeat bm E; try discriminate E. injection E as <-. reflexivity. Qed.
+Lemma fn_fail_wf : fn_wf fn_fail.
+Proof. apply fn_wf_of_impl. intros args rt v _ E. discriminate E. Qed.
+Lemma fn_isnull_wf : fn_wf fn_isnull.
+Proof. apply fn_wf_of_impl. intros args rt v _ E. cbn in E. repeat bm E; try discriminate E. injection E as <-. reflexivity. Qed.
+Lemma fn_pair_wf : fn_wf fn_pair.
+Proof.
+  apply fn_wf_of_impl. intros args rt v W E. cbn in E. repeat bm E; try discriminate E. injection E as <-. subst.
+  inversion W as [|? ? W1 W']; subst. inversion W' as [|? ? W2 _]; subst.
+  unfold wf in *. cbn [wfb forallb]. rewrite W1, W2. reflexivity.
+Qed.
+Lemma fn_first_wf : fn_wf fn_first.
+Proof.
+  intros args v W E. destruct args as [|a r]; [discriminate E|]. rewrite fn_call_first in E. injection E as <-.
+  inversion W; assumption.
+Qed.
+Lemma fn_sum_wf : fn_wf fn_sum.
+Proof.
+  apply fn_wf_of_impl. intros args rt v _ E. cbn [fn_sum f_impl] in E.
+  assert (X : forall l acc, (forall x, acc = OOk x -> wf x) ->
+     fold_left (fun acc a => match acc, a with
+            | OOk (VNum x), VNum y => match num_add x y with Some n => OOk (VNum n) | None => OErr OEOther end
+            | OOk _, _ => OUnsupported
+            | o, _ => o
+            end) l acc = OOk v -> wf v).
+  { induction l as [|a l IHl]; cbn [fold_left]; intros acc Ha F; [apply Ha, F|].
+    eapply IHl; [|exact F]. intros x Ex. repeat bm Ex; try discriminate Ex; injection Ex as <-; reflexivity. }
+  eapply X; [|exact E]. intros x Ex. injection Ex as <-. reflexivity.
+Qed.
+
+Lemma fn_upper_ok m : fn_ok m fn_upper.  Proof. repeat split; [apply fn_upper_ni|apply fn_upper_wf]. Qed.
+Lemma fn_sum_ok m : fn_ok m fn_sum.      Proof. repeat split; [apply fn_sum_ni|apply fn_sum_wf]. Qed.
+Lemma fn_first_ok m : fn_ok m fn_first.  Proof. repeat split; [apply fn_first_ni|apply fn_first_wf]. Qed.
+Lemma fn_fail_ok m : fn_ok m fn_fail.    Proof. repeat split; [apply fn_fail_ni|apply fn_fail_wf]. Qed.
+Lemma fn_isnull_ok m : fn_ok m fn_isnull. Proof. repeat split; [apply fn_isnull_ni|apply fn_isnull_wf]. Qed.
+Lemma fn_pair_ok m : fn_ok m fn_pair.    Proof. repeat split; [apply fn_pair_ni|apply fn_pair_wf]. Qed.
